@@ -446,7 +446,7 @@ def sign_rule(chk, db):
         chk.analysis_broken("SIGN: no formatting kernel that emits '-' found")
 
 
-META_EXTRA = "NEG (no negation of a possibly-minimum signed value); SIGN ('-' on every path that may format a negative value)."
+META_EXTRA = "NEG (no negation of a possibly-minimum signed value); SIGN ('-' on every path that may format a negative value); CASTSIGN (no cast of the caller's value to a fixed signed type); OVFCHK (accumulation only after an unconditional overflow test); OVFCONST (exact thresholds limit / base, |limit % base|); PARAM."
 META = (META[0] + " " + META_EXTRA, META[1])
 
 
